@@ -320,3 +320,9 @@ def r9(rr, repo):
     from .c01 import r2 as c01r2, r8 as c01r8
     c01r2(rr, repo)
     c01r8(rr, repo)
+
+
+@rule('C03.R10', 'the join never reads ahead of a complete source: a source whose set for the current id is complete leaves the poller on every path (shares C06.R2), so a frame - the empty one included - is not superseded before its siblings arrive')
+def r10(rr, repo):
+    from .c06 import r2 as c06r2
+    c06r2(rr, repo)
